@@ -112,6 +112,24 @@ class Ref:
         return sorted((o.path, o.relpath) for o in self.nodes.get(path, {}).get(loc, []) if o.valid)
 
 
+# the wrapped location d2 (on d0): a mount nested inside another one, and one whose name merely starts like them
+MOUNTS = {"/m": "/a", "/m/b": "/e/x", "/mm": "/b"}
+
+
+def spec_inner(path: str):
+    """where a path of the wrapped location lives on the wrapped one: the LONGEST mount point that is a component-wise prefix"""
+    ps = parts(path)
+    best = None
+    for mnt, target in MOUNTS.items():
+        ms = parts(mnt)
+        if ps[: len(ms)] == ms and (best is None or len(ms) > len(parts(best[0]))):
+            best = (mnt, target)
+    if best is None:
+        return None
+    rest = ps[len(parts(best[0])):]
+    return posixpath.join(best[1], *rest) if rest else best[1]
+
+
 def gen_history(rng: random.Random, nloc: int, depth: int, nops: int, wrapped: bool = False):
     names = ["a", "b", "e", "f"]
     pool = []
@@ -128,8 +146,16 @@ def gen_history(rng: random.Random, nloc: int, depth: int, nops: int, wrapped: b
                 p = str(Path(p).parent) if p.count("/") > 1 else p
             l = rng.randrange(nloc)
             if l == 2 and wrapped:
-                # location 2 wraps location 0 with the mount /m -> /a: one register_path call registers both ends and relates them
-                ops.append(("wreg", 2, "/m" + p, 0, "/a" + p))
+                # location 2 wraps location 0 (MOUNTS): one register_path call registers both ends and relates them; the host path
+                # is the one below the longest matching mount; a path below no mount is registered on the wrapper only
+                outer = rng.choice(["/m", "/m", "/m/b", "/m/b", "/mm", "/q"]) + p
+                host = spec_inner(outer)
+                if host is None:
+                    ops.append(("reg", 2, outer))
+                    rloc.append(2)
+                    nreg += 1
+                    continue
+                ops.append(("wreg", 2, outer, 0, host))
                 inner.add(nreg + 1)
                 rloc += [2, 0]
                 nreg += 2
@@ -154,6 +180,8 @@ def gen_history(rng: random.Random, nloc: int, depth: int, nops: int, wrapped: b
                 p = "/"
             elif x < 0.38:
                 p = "/zz/y"
+            elif wrapped and x < 0.6:
+                p = rng.choice(["/m", "/m/b", "/mm", "/e/x", "/e", "/a", "/a/b", "/b"]) + rng.choice(["", "", p])
             ops.append(("inv", rng.randrange(nloc), p))
     return ops
 
@@ -243,7 +271,10 @@ CORPUS = [
     # a subtree skipped by the invalidation walk
     [("reg", 1, "/b/e/a"), ("reg", 0, "/b"), ("reg", 1, "/b/e/a/f"), ("rel", 1, 0), ("inv", 1, "/")],
     # wrapped location d2 (mount /m -> /a on d0): one call registers both ends
-    [("reg", 1, "/x"), ("wreg", 2, "/m/b/f", 0, "/a/b/f"), ("inv", 0, "/a/b/f"), ("wreg", 2, "/m/b/f", 0, "/a/b/f"), ("inv", 2, "/m")],
+    [("reg", 1, "/x"), ("wreg", 2, "/m/c/f", 0, "/a/c/f"), ("inv", 0, "/a/c/f"), ("wreg", 2, "/m/c/f", 0, "/a/c/f"), ("inv", 2, "/m")],
+    # nested mounts: /m/b/f/g lives below /e/x (mount /m/b), not below /a/b (mount /m); invalidating the host side reaches it
+    [("wreg", 2, "/m/b/f/g", 0, "/e/x/f/g"), ("wreg", 2, "/m/a/f", 0, "/a/a/f"), ("wreg", 2, "/mm/a", 0, "/b/a"), ("inv", 0, "/e/x"),
+     ("wreg", 2, "/m/b/f/g", 0, "/e/x/f/g"), ("inv", 0, "/a")],
     [("reg", 0, "/a/b/c"), ("inv", 0, "/a"), ("reg", 0, "/a/b/c"), ("reg", 1, "/a/b"), ("inv", 0, "/a/b/c"), ("inv", 1, "/")],
     [("reg", 0, "/a"), ("reg", 0, "/a"), ("inv", 0, "/a"), ("inv", 0, "/a"), ("reg", 0, "/a"), ("inv", 0, "/zz")],
     [("reg", 0, "/a/f"), ("reg", 0, "/b/g"), ("rel", 0, 1), ("inv", 0, "/a"), ("reg", 0, "/a/f")],
@@ -302,7 +333,7 @@ class C21(Property):
         dm = DefaultDataManager(_Context())
         locs = [ExecutionLocation(name="loc", deployment=f"d{i}", local=False) for i in range(nloc)]
         if any(o[0] == "wreg" for o in ops):
-            locs[2] = ExecutionLocation(name="loc", deployment="d2", local=False, mounts={"/m": "/a"}, wraps=locs[0])
+            locs[2] = ExecutionLocation(name="loc", deployment="d2", local=False, mounts=dict(MOUNTS), wraps=locs[0])
         ref = Ref()
         regs, rregs = [], []
         universe = set()
